@@ -107,6 +107,41 @@ func checkC05(p *Prog, r *Report) {
 		checkTypeExists(p, r, f)
 	}
 
+	// the schema handed down by the entry points is the caller's own
+	r.rule("C05.schema-threaded: every call in the reachable functions to a package function with a *Schema parameter passes a schema that is never the nil constant on any incoming edge (the nil schema is the identifier decoder's no-validation mode)")
+	nSch := 0
+	isSchemaPtr := func(t types.Type) bool {
+		pt, ok := t.(*types.Pointer)
+		return ok && structName(pt.Elem()) == "Schema"
+	}
+	for _, f := range scope {
+		eachInstr(f, func(ins ssa.Instruction) {
+			c, ok := ins.(ssa.CallInstruction)
+			if !ok {
+				return
+			}
+			g := c.Common().StaticCallee()
+			if g == nil || g.Pkg != f.Pkg || c.Common().IsInvoke() {
+				return
+			}
+			for _, a := range c.Common().Args {
+				if !isSchemaPtr(a.Type()) {
+					continue
+				}
+				nSch++
+				good := true
+				for _, o := range origins(a) {
+					if isNilConst(o) {
+						good = false
+					}
+				}
+				r.decide(good, "C05.schema-threaded", funcName(f)+":"+p.describe(c.(ssa.Instruction)), p.pos(c.Pos()), "the schema argument is never nil by construction",
+					"a nil schema reaches "+funcName(g)+" on some path: the type lookup is skipped and a type that is not in the schema is accepted")
+			}
+		})
+	}
+	r.floor("schema arguments threaded", nSch, 6)
+
 	// R1
 	kt := buildKindTable(p, r)
 	kt.checkUnmarshalTypes(r)
